@@ -174,4 +174,40 @@ MUTANTS = [
     Mutant("repair-length-type", CL, "        cdef int length = (2*max_cell_radius + 1)**3 * self._max_cell_length", "        cdef int64 length = (2*max_cell_radius + 1)**3 * self._max_cell_length",
            "R2.allocation-size-width", kind="repair"),
     Mutant("selection-check-removed", CL, "            if self._selection.shape[0] != self._orig_length:", "            if False:", "R3.selection-length"),
+    # ---- one seeded fault per remaining rule ----
+    Mutant("cell-count-no-plus-one", CL, "        cell_count = (((max_coord - min_coord) / cell_size) +1).astype(int)",
+           "        cell_count = ((max_coord - min_coord) / cell_size).astype(int)", "R1.constructor-invariant"),
+    Mutant("grid-origin-without-images", CL, "        min_coord = np.nanmin(coord, axis=0).astype(np.float32)",
+           "        min_coord = np.nanmin(coord[:self._orig_length], axis=0).astype(np.float32)", "R1.constructor-invariant"),
+    Mutant("selected-coord-unchecked", CL, "        else:\n            _check_coord(coord[selection])\n", "        else:\n            pass\n",
+           "R1.finite-before-fill", "CellList.__cinit__"),
+    Mutant("check-coord-finite-dropped", CL,
+           "    if not np.isfinite(coord).all():\n        raise ValueError(\"Coordinates contain non-finite values\")\n", "",
+           "R1.finite-before-fill", "_check_coord"),
+    Mutant("length-grid-smaller", CL, "        self._cell_length = np.zeros(cell_count, dtype=np.int32)",
+           "        self._cell_length = np.zeros(cell_count - 1, dtype=np.int32)", "R1.same-grid-shape"),
+    Mutant("buffer-cube-off-by-one", CL, "        cdef int length = (2*max_cell_radius + 1)**3 * self._max_cell_length",
+           "        cdef int length = (2*max_cell_radius)**3 * self._max_cell_length", "R2.allocation-covers-visits"),
+    Mutant("buffer-min-radius", CL, "            max_cell_radius = np.max(cell_radii)", "            max_cell_radius = np.min(cell_radii)",
+           "R2.allocation-covers-visits"),
+    Mutant("max-cell-length-not-updated", CL,
+           "                    if length > self._max_cell_length:\n                        self._max_cell_length = length\n", "",
+           "R2.max-cell-length-maintained"),
+    Mutant("visit-range-one-more", CL, "            for adj_i in range(i-cell_r, i+cell_r+1):", "            for adj_i in range(i-cell_r, i+cell_r+2):",
+           "R2.visit-range"),
+    Mutant("visit-radius-doubled", CL, "            cell_r = cell_radius[pos_i]\n", "            cell_r = 2 * cell_radius[pos_i]\n", "R2.visit-range"),
+    Mutant("mask-padding-not-skipped", CL,
+           "                if index == -1:\n                    # End of list -> jump to next position\n                    break\n", "",
+           "R3.mask-width"),
+    Mutant("mask-width-from-indices", CL, "            (indices.shape[0], self._orig_length), dtype=np.uint8",
+           "            (indices.shape[0], indices.shape[1]), dtype=np.uint8", "R3.mask-width"),
+    Mutant("nan-query-not-skipped", CL,
+           "            if not finite_mask[pos_i]:\n                # For non-finite coordinates, there are no adjacent atoms\n                continue\n", "",
+           "R3.nonfinite-queries-skipped"),
+    Mutant("radii-count-unchecked", CL,
+           "        if radius.shape[0] != coord.shape[0]:\n            raise ValueError(\n                f\"Amount of radii ({radius.shape[0]}) \"\n"
+           "                f\"and coordinates ({coord.shape[0]}) are not equal\"\n            )\n", "",
+           "R3.radius-shape"),
+    Mutant("negative-radius-accepted", CL,
+           "        if radius < 0:\n            raise ValueError(\"Radius must be a positive value\")\n", "", "R3.radius-shape"),
 ]
